@@ -1777,3 +1777,10 @@ Qed.
 
 Lemma isort_sorted l : Sorted le (isort l).
 Proof. induction l as [|x r IH]; cbn [isort]; [constructor|]. apply insert_sorted; auto. Qed.
+
+(* what the theorems assume about the external qsort *)
+Definition good_sort (sort : list nat -> list nat) : Prop :=
+  (forall l, Permutation l (sort l)) /\ (forall l, Sorted le (sort l)).
+
+Lemma isort_good : good_sort isort.
+Proof. split; [exact isort_perm | exact isort_sorted]. Qed.
